@@ -32,7 +32,7 @@ for pid, v, demo, dest, cmd, sdir0, sid in T:
     needs = m.group(1).strip() if m else ""
     title = notes.splitlines()[0].lstrip("# ").strip()
     meta = {
-        "id": sid, "property": pid, "round": 3 if sdir0.startswith("/tmp/seed3-") else (2 if sdir0.startswith("/tmp/seed2-") else 1), "title": title,
+        "id": sid, "property": pid, "round": 4 if sdir0.startswith("/tmp/seed4-") else 3 if sdir0.startswith("/tmp/seed3-") else (2 if sdir0.startswith("/tmp/seed2-") else 1), "title": title,
         "breaks": f"{pid} (see notes.md)",
         "needs_to_manifest": needs,
         "demonstration": {"file": demo_name, "copy_to": dest, "command": f"GOFLAGS=-mod=mod GOPROXY=off go test -count=1 {cmd}"},
